@@ -241,4 +241,21 @@ PROPS["C11"] = dict(
     thorough=dict(checks=200000, shards=16, timeout=3000),
 )
 
+PROPS["C12"] = dict(
+    pkg="c12",
+    level="exploration",
+    technique="stateful property-based testing (rapid): generated write/signed-update/read histories against a register model (map variable -> last value), every variable read back after every step",
+    level_text=("Histories of 1..25 (thorough 60) WriteVar / WriteSignedUpdate / read-all operations over PK, KEK, db, dbx and three ordinary variables (one sharing the name 'db' under another GUID), "
+                "starting from an empty or pre-populated testfs store; values are databases that grow, shrink, become empty and repeat, and raw byte strings of 0..600 bytes. "
+                "After every step every variable is read through GetVar (raw bytes) and, for decodable values, through Getdb/GetKEK/GetPK/Getdbx and must equal the model's last written value "
+                "(for signed updates the payload without the descriptor); never-written variables must be absent."),
+    level_note=("The model is a map; no reference implementation involved. Masks without APPEND_WRITE (append is firmware-side merging, not register semantics). Plain values given to secure-boot variables never look like a "
+                "revision-2.0 WIN_CERTIFICATE header, because the store by design treats such bytes as a signed update."),
+    rule=("case = (pre-populated variables, operation list). Non-trivial = history in which some variable is written with a strictly shorter value after a longer one, or with a signed update after a plain write (or vice versa), "
+          "or two variables are written alternately; distinct by SHA-256 of the case."),
+    assumptions=["reads go through the same Efivarfs facade a test author would use"],
+    quick=dict(checks=700, shards=4, timeout=900, shrinktime=15),
+    thorough=dict(checks=6000, shards=16, timeout=3000, shrinktime=30),
+)
+
 NOT_APPLICABLE = _NA()
